@@ -177,22 +177,15 @@ func r16_2(c *Ctx, rule string) {
 		return c.isCallValueTo(s.Val, "builtin:append")
 	}
 	c.ObPrecedes(rule, c.name(f.copyDir)+"/record-before-children", f.copyDir, nil, isPush, c.callPred("copy.(*copier).copy", "os.ReadDir"), "pushing the directory's record on copier.parentDirs", "descending into the children")
-	popped := false
-	for _, cl := range eng.Closures(f.copyDir) {
-		for _, s := range fieldStoresIn(cl, "copy.copier.parentDirs") {
+	popped, deferred := false, false
+	for _, df := range c.deferredFuncs(f.copyDir) {
+		deferred = true
+		for _, s := range fieldStoresIn(df, "copy.copier.parentDirs") {
 			if _, isSlice := s.Val.(*ssa.Slice); isSlice {
 				popped = true
 			}
 		}
 	}
-	deferred := false
-	eng.Instrs(f.copyDir, func(in ssa.Instruction) {
-		if d, ok := in.(*ssa.Defer); ok {
-			if _, isMC := d.Call.Value.(*ssa.MakeClosure); isMC {
-				deferred = true
-			}
-		}
-	})
 	c.R.Check(popped && deferred, rule, c.name(f.copyDir)+"/record-popped", c.P.Pos(f.copyDir.Pos()), "the record is popped by a deferred function", "copyDirectory does not pop its record from copier.parentDirs on exit: later siblings would create this directory as their 'ancestor'")
 }
 
